@@ -59,6 +59,26 @@ var properties = []Property{
 		Explanation: "SSA dataflow over the parser and compiler: a parse function returns nil only after an error was recorded (must-dataflow with callee summaries, through the registered parselet tables), Parse turns a non-empty error list into an error, every error-valued call has its error looked at and never replaced by nil, blocks are parsed only after '{' was demanded, the top-level loop stops only at end of input, nested ternaries and `local` outside functions are rejected.",
 		NotDecided:  "that each individual syntax check is the right check (needs a grammar as oracle).",
 		Assumptions: commonAssumptions},
+	{ID: "C04", Title: "host object fields", Level: "other",
+		Rules:       []string{"R-NONNIL", "R-RUNRESET", "R-LOOKUPORDER"},
+		Explanation: "Conversion of host fields is total and never yields a nil object (SSA nil-source analysis with function summaries over every Object-returning function and every push/store sink), every run and nested call starts from an empty field cache, and names resolve as variable, then field, then null (dominance in the resolver).",
+		NotDecided:  "lossless conversion per kind, order and length of arrays, nested maps: values produced by reflection at run time.",
+		Assumptions: commonAssumptions},
+	{ID: "C05", Title: "one notion of truth", Level: "other",
+		Rules:       []string{"R-IDENTITY", "R-LOGICDISPATCH", "R-TRUTHDEF", "R-TRUTHSITES", "R-RUNEXEC"},
+		Explanation: "No identity comparison of objects anywhere in the library (SSA; matcher self-tested on a built-in example), && and || are reachable for every operand type pair (clause order of the dispatcher against the extracted tables), every True() body is the language's definition, consumers of truth call True(), and Run is True() of Execute's object with Execute's error.",
+		NotDecided:  "the values of comparisons themselves.",
+		Assumptions: commonAssumptions},
+	{ID: "C08", Title: "no crash of the host", Level: "other",
+		Rules:       []string{"R-RECOVER", "R-NONNIL", "R-RECURSION", "R-ERRPROP", "R-FRAMERESTORE"},
+		Explanation: "Execute recovers and sets both results, Run does nothing that can panic afterwards, no nil object escapes, unbounded recursion reachable from the API is enumerated (Tarjan SCCs of the VTA call graph; each needs a depth guard), errors are propagated, and the machine is restored after a failed call so the evaluator remains usable.",
+		NotDecided:  "memory exhaustion; panics inside the recover region (they become errors, which the property allows); panics in Prepare/Dump outside recursion (see R-PANICSITES when built); host-supplied Object implementations.",
+		Assumptions: commonAssumptions},
+	{ID: "C09", Title: "deadline and cancellation", Level: "other",
+		Rules:       []string{"R-POLL", "R-CTXFLOW"},
+		Explanation: "The non-blocking poll of the VM's context dominates the opcode read and lies on every back edge of the dispatch loop (dominator analysis), its ready edge returns an error, inner loops of the interpreter are classified by their bound, functions execute through the same polled loop, and the context flows SetContext → Prepare → VM with no other writer.",
+		NotDecided:  "the length of the delay: a single instruction (regexp match, sort, a huge range) may run long; Go scheduling.",
+		Assumptions: commonAssumptions},
 	{ID: "C06", Title: "functions and scopes", Level: "other",
 		Rules:       []string{"R-SCOPEPAIR", "R-SCOPERESTORE", "R-BINDINNER", "R-FRAMERESTORE", "R-LOCALGUARD"},
 		Explanation: "SSA dominance and call-graph checks on the call protocol: the callee's scope is opened before parameters are bound, binding goes to the innermost scope, scopes and the swapped VM fields are restored by deferred code (by absolute depth / to the pre-swap values) on every exit, loops open and close their scope, `local` only inside functions.",
@@ -78,6 +98,11 @@ var properties = []Property{
 		Rules:       []string{"R-PRECTABLE", "R-PRATT", "R-INFIXSET", "R-TERNGUARD"},
 		Explanation: "The four facts that are the grouping semantics of a Pratt parser are read from the code: the order of the binding powers against the documented chain, strictness of the loop comparison, capture of the operator's binding power before the parser advances, agreement between the infix table and the precedence table; plus the nested-ternary guard.",
 		NotDecided:  "the '.' rewrite of field access, postfix ++/-- being separate statements, what the compiler does with the tree.",
+		Assumptions: commonAssumptions},
+	{ID: "C16", Title: "containers", Level: "other",
+		Rules:       []string{"R-SCRIPTINDEX"},
+		Explanation: "Every slice index computed from a script value is proven within bounds from the dominating comparisons (difference constraints over canonical len terms).",
+		NotDecided:  "element order from the stack, len, membership, hash-key distinctness and sorted iteration (rules R-HASHKEY/R-MAPORDER when built).",
 		Assumptions: commonAssumptions},
 	{ID: "C18", Title: "well-formed code", Level: "other",
 		Rules:       []string{"R-EMITLEN", "R-HANDLERS", "R-PATCHALL", "R-JOINPH", "R-JUMPSET", "R-OPBOUNDARY", "R-NARROW"},
